@@ -401,8 +401,14 @@ class HplProperty(HplAstObject):
         return True
 
     def type_check_references(self, msg_types: Mapping[str, TypeToken]) -> None:
+        # references such as `@A.field` are resolved in the message type of the event aliased `A`
+        aliases = {}
         for event in self.events():
-            event.type_check_references(msg_types)
+            for simple_event in event.simple_events():
+                if simple_event.alias is not None:
+                    aliases[simple_event.alias] = msg_types[simple_event.name]
+        for event in self.events():
+            event.type_check_references(msg_types, aliases)
 
     def events(self) -> Iterator[HplEvent]:
         if self.scope.activator is not None:
